@@ -69,6 +69,14 @@ let run_case (ops : string list) : string list =
             last := res_str (req (OSet (cnum 1, skey 3, JNum (str_of_string (string_of_int i)), false))).o_res "ack"
           done;
           !last
+      | "churnd" ->
+          let n = int_of_string t.(2) in
+          let last = ref "r:noanswer" in
+          for i = 0 to n - 1 do
+            ignore (req (OSet (cnum 1, skey 3, JNum (str_of_string (string_of_int i)), false)));
+            last := res_str (req (ODelete (cnum 1, skey 3))).o_res "state"
+          done;
+          !last
       | "settle" -> "ok"      (* a pause is no guarantee that the writer has caught up (fsync under load): every prefix stays possible *)
       | "stop" ->
           let (s1, acts) = shutdown_actions (List.hd !cands) in
